@@ -120,6 +120,25 @@ CHECKS.append({
     "design_ref": "DESIGN.md section 7, C16",
 })
 
+CHECKS.append({
+    "property_id": "C11",
+    "text": ("Theorem C11_holds (coq/Props/C11.v) over coq/Model/Encap.v (header and common-packet-format layouts, item types, commands and send() "
+             "keyword sources regenerated from /repo by harness/gen_encap.py as layout descriptors the model interprets) against the independent "
+             "strict parser coq/Spec/EncapParser.v: frame_ok — for every request class, EVERY payload (any list of byte strings; only the 16-bit "
+             "length fields bound it, as hypotheses), every session < 2^32, 8-byte context and 4-byte connection id, build_request returns one "
+             "frame that the strict parser reads as exactly the demanded command / session / zero status and options / two-item common packet "
+             "whose lengths equal their contents; connected_starts_with_seq; history_ok — for ALL operation lists over open (any register reply), "
+             "unconnected and connected requests (any Forward Open replies) and close, every emitted frame is accepted, has its operation's "
+             "command, carries the last granted session handle (0 only before registration / after close) and every 0x70 frame the connection id "
+             "of the last accepted Forward Open (invariant by induction); build_message_once for every class that sets the flag (refuted, with the "
+             "class as exact guard, for RegisterSession whose frames are never rebuilt by the driver). Tie: correspondence of the real packet "
+             "classes and CIPDriver histories with the extracted model, and the strict parser applied to every frame the real drivers write "
+             "against the live reference target (random handles and connection ids)."),
+    "note": COMMON_NOTE + " C11: closed under the global context; imports T1's parse_mk_frame (Proofs/TargetCoreP.v). Socket-fault histories are C10's; discover() over UDP is out of scope.",
+    "technique": "Coq proof (strict parser of builder = identity for all payloads; history invariant by induction) + correspondence and strict parsing of real driver frames",
+    "design_ref": "DESIGN.md section 7, C11",
+})
+
 _PENDING = "vertical not yet built in this session (see DESIGN.md section 9 staging); decided by Coq proof + correspondence when it lands"
 _CLAIMED = {c["property_id"] for c in CHECKS}
 NOT_APPLICABLE = [{"property_id": f"C{i:02d}", "reason": _PENDING} for i in range(1, 20) if f"C{i:02d}" not in _CLAIMED]
